@@ -97,13 +97,16 @@ func FindNaluTypes(sample []byte) []NaluType {
 	if length < 4 {
 		return naluList
 	}
-	var pos uint32 = 0
-	for pos < uint32(length-4) {
+	pos := 0
+	for pos < length-4 {
 		naluLength := binary.BigEndian.Uint32(sample[pos : pos+4])
 		pos += 4
 		naluType := GetNaluType(sample[pos])
 		naluList = append(naluList, naluType)
-		pos += naluLength
+		if int64(naluLength) > int64(length-pos) {
+			break // length field points beyond the end of the sample
+		}
+		pos += int(naluLength)
 	}
 	return naluList
 }
@@ -115,13 +118,16 @@ func FindNaluTypesUpToFirstVideoNalu(sample []byte) []NaluType {
 	if length < 4 {
 		return naluList
 	}
-	var pos uint32 = 0
-	for pos < uint32(length-4) {
+	pos := 0
+	for pos < length-4 {
 		naluLength := binary.BigEndian.Uint32(sample[pos : pos+4])
 		pos += 4
 		naluType := GetNaluType(sample[pos])
 		naluList = append(naluList, naluType)
-		pos += naluLength
+		if int64(naluLength) > int64(length-pos) {
+			break // length field points beyond the end of the sample
+		}
+		pos += int(naluLength)
 		if IsVideoNaluType(naluType) {
 			break // Video has started
 		}
@@ -136,19 +142,22 @@ func IsVideoNaluType(naluType NaluType) bool {
 
 // ContainsNaluType - is specific NaluType present in sample
 func ContainsNaluType(sample []byte, specificNaluType NaluType) bool {
-	var pos uint32 = 0
+	pos := 0
 	length := len(sample)
 	if length < 4 {
 		return false
 	}
-	for pos < uint32(length-4) {
+	for pos < length-4 {
 		naluLength := binary.BigEndian.Uint32(sample[pos : pos+4])
 		pos += 4
 		naluType := GetNaluType(sample[pos])
 		if naluType == specificNaluType {
 			return true
 		}
-		pos += naluLength
+		if int64(naluLength) > int64(length-pos) {
+			break // length field points beyond the end of the sample
+		}
+		pos += int(naluLength)
 	}
 	return false
 }
@@ -195,23 +204,27 @@ func HasParameterSets(b []byte) bool {
 
 // GetParameterSets - get (multiple) VPS,  SPS, and PPS from a sample
 func GetParameterSets(sample []byte) (vps, sps, pps [][]byte) {
-	sampleLength := uint32(len(sample))
-	var pos uint32 = 0
+	length := len(sample)
+	pos := 0
 naluLoop:
-	for pos < sampleLength {
+	for pos < length-4 { // room for a length field and a NALU header
 		naluLength := binary.BigEndian.Uint32(sample[pos : pos+4])
 		pos += 4
+		if int64(naluLength) > int64(length-pos) {
+			break // length field points beyond the end of the sample
+		}
+		end := pos + int(naluLength)
 		switch naluType := GetNaluType(sample[pos]); {
 		case naluType == NALU_VPS:
-			vps = append(vps, sample[pos:pos+naluLength])
+			vps = append(vps, sample[pos:end])
 		case naluType == NALU_SPS:
-			sps = append(sps, sample[pos:pos+naluLength])
+			sps = append(sps, sample[pos:end])
 		case naluType == NALU_PPS:
-			pps = append(pps, sample[pos:pos+naluLength])
+			pps = append(pps, sample[pos:end])
 		case naluType <= highestVideoNaluType:
 			break naluLoop
 		}
-		pos += naluLength
+		pos = end
 	}
 	return vps, sps, pps
 }
